@@ -298,9 +298,13 @@ def gen_api():
           "From BU Require Import Base.Exn Base.Val Extract.ApiCommon.\n"
     for g in groups:
         txt += "From BU Require Extract.Api_%s.\n" % g
-    txt += "Import ListNotations.\n\nSection Api.\n  Variable ask : string -> list val -> val.\n" \
+    txt += "Import ListNotations.\nOpen Scope string_scope.\n\n" \
+           "Definition qualify (g : string) (l : list api_entry) : list api_entry :=\n" \
+           "  map (fun e => (g ++ \".\" ++ fst e, snd e)) l.\n\n" \
+           "Section Api.\n  Variable ask : string -> list val -> val.\n" \
+           "  (* every entry is reachable as <group>.<name>; the harness always qualifies *)\n" \
            "  Definition api : list api_entry :=\n    " + \
-           " ++\n    ".join("Api_%s.api ask" % g for g in groups) + ".\n" \
+           " ++\n    ".join("qualify \"%s\" (Api_%s.api ask)" % (g, g) for g in groups) + ".\n" \
            "  Definition dispatch (name : string) (args : list val) : res val :=\n" \
            "    match lookup name api with Some f => f args | None => Err (Foreign 1) end.\nEnd Api.\n"
     p = os.path.join(d, "Api.v")
@@ -495,7 +499,7 @@ def replay(prop, path):
     from modeldrv import ModelDriver
     from oracles import ORACLES
     br = build()
-    m = ModelDriver(ORACLES) if br.extract_ok else None
+    m = ModelDriver(ORACLES, groups=api_groups(prop, mod)) if br.extract_ok else None
     ctx = Ctx(prop, "quick", 0, mod.FUNCS, m)
     bad = 0
     for c in payload.get("cases", []):
@@ -565,7 +569,7 @@ def main(argv):
     from oracles import ORACLES
     m = None
     if br.extract_ok:
-        m = ModelDriver(ORACLES)
+        m = ModelDriver(ORACLES, groups=api_groups(prop, mod))
     else:
         cases.append({"kind": "proof", "what": "model extraction/driver build failed: %s" %
                       str({k: v[:300] for k, v in br.failed.items()})[:900]})
@@ -669,6 +673,19 @@ def main(argv):
     print("OK property=%s tier=%s theorems=%d/%d evaluations=%d distinct=%d wall=%.1fs" %
           (prop, tier, len(discharged), len(names), ctx.evaluations, len(ctx.distinct), wall))
     return 0
+
+
+API_OWNER = {"C01": ["bip39"], "C02": ["bip39"], "C03": ["deriv"], "C04": ["deriv"], "C05": ["serbip"], "C06": ["paths"],
+             "C07": ["objects", "registry"], "C08": ["coins"], "C09": ["addr", "addrtext"], "C10": ["bech32", "codecs", "base58"],
+             "C11": ["codecs", "base58"], "C12": ["ecc"], "C13": ["serbip"], "C14": [], "C15": ["objects"],
+             "C16": ["cardmon"], "C17": ["mnem"], "C18": ["cardmon"], "C19": ["paths"], "C20": ["serbip"]}
+
+
+def api_groups(prop, mod=None):
+    d = os.path.join(COQ, "Extract")
+    allg = sorted(f[4:-2] for f in os.listdir(d) if f.startswith("Api_") and f.endswith(".v"))
+    first = list(getattr(mod, "API_GROUPS", None) or API_OWNER.get(prop, []))
+    return [g for g in first if g in allg] + [g for g in allg if g not in first]
 
 
 COMMON_TRUSTED = [
